@@ -81,6 +81,16 @@ CLAIMED = {
          "Generated-input search: 400k histories quick / 10M thorough; no orphan may exist after any statement, child tables must equal the model's action closure, orphaning or restricted statements must be rejected.",
          "Single-column foreign keys referencing a single-column primary key; SET DEFAULT not generated.",
          "DESIGN.md §6 C12"),
+ "C13": ("exploration",
+         "history invariant + twin-database differential for transactions: the engine's complete observation (tables, columns, rows, index names, views, triggers) and a battery of index-driven queries before BEGIN vs after ROLLBACK, later statements vs a twin that executed only the committed prefix; COMMIT vs a twin that ran the body in auto-commit mode",
+         "Generated-input search: 60k histories quick / 2M thorough; bodies mix DML on tables with PRIMARY KEY / UNIQUE / user indexes / FOREIGN KEYs with CREATE INDEX, DROP INDEX, CREATE/DROP TABLE, CREATE/DROP VIEW, ALTER TABLE ADD COLUMN, TRUNCATE; 0-4 statements follow the end of the transaction and are compared with the twin after each.",
+         "Single session; the reference is the engine itself (own earlier observation / re-executed twin), so defects common to both sides belong to C09-C15.",
+         "DESIGN.md §6 C13"),
+ "C14": ("exploration",
+         "history invariant over the engine's own table contents for savepoints: contents recorded when SAVEPOINT s executed must reappear after ROLLBACK TO s (storage scan and SELECT *), s stays usable, later savepoints are destroyed, RELEASE/SAVEPOINT/COMMIT change no data",
+         "Generated-input search: 200k histories quick / 5M thorough of INSERT / UPDATE / DELETE / TRUNCATE / INSERT..SELECT (failing statements and FK cascades included) interleaved with SAVEPOINT, ROLLBACK TO (live, repeated, destroyed) and RELEASE inside one transaction.",
+         "Only table contents are compared, as the property states; savepoints later than a released one are never referenced again because the statement does not define their fate.",
+         "DESIGN.md §6 C14"),
  "C15": ("exploration",
          "invariant testing of index structures: after every statement of a generated history the PK hash index, UNIQUE hash indexes and every user index map are compared with a rebuild from scratch on a clone",
          "Generated-input search: 250k histories quick / 6M thorough with position-shifting deletes, updates of indexed/key columns, DELETE-all/TRUNCATE, INSERT..SELECT; uses only public APIs (primary_key_index, unique_indexes, get_index_data, rebuild_indexes).",
